@@ -56,6 +56,8 @@ def err_adts(e):
 
 
 def check(ctx):
+    from .ctors import check_table
+    check_table(ctx, "C06", "R06.4")
     F = ctx.F
     sel_fns = ctx.trait_impl_fns(T_SELECT)
     ctx.floor("R06", len(sel_fns), 37, "Selector::select impls")
